@@ -107,7 +107,7 @@ struct Rec {
     auth_ok: bool,
 }
 
-fn group_writes(events: &[WireEv], bytes: &[u8]) -> (Vec<(Vec<usize>, Vec<u8>)>, usize) {
+pub fn group_writes(events: &[WireEv], bytes: &[u8]) -> (Vec<(Vec<usize>, Vec<u8>)>, usize) {
     let mut groups = Vec::new();
     let mut cur: Vec<usize> = Vec::new();
     let mut start = 0usize;
@@ -296,12 +296,12 @@ async fn scenario(plan: &Value, concurrent: bool) -> Rec {
 
 /// normalised ranges of a scheme line, the way the protocol defines them (independent reimplementation)
 #[derive(Debug, Clone, PartialEq)]
-enum Item {
+pub enum Item {
     Check,
     Range(i64, i64),
 }
 
-fn scheme_line(scheme: &str, k: usize) -> Option<Vec<Item>> {
+pub fn scheme_line(scheme: &str, k: usize) -> Option<Vec<Item>> {
     let mut found: Option<String> = None;
     for line in scheme.lines() {
         if let Some((key, val)) = line.split_once('=') {
@@ -330,7 +330,7 @@ fn scheme_line(scheme: &str, k: usize) -> Option<Vec<Item>> {
     Some(items)
 }
 
-fn scheme_stop(scheme: &str) -> u64 {
+pub fn scheme_stop(scheme: &str) -> u64 {
     let mut stop = 0;
     for line in scheme.lines() {
         if let Some((k, v)) = line.split_once('=') {
@@ -343,7 +343,7 @@ fn scheme_stop(scheme: &str) -> u64 {
 }
 
 /// C05 acceptor: are these write lengths a legal shaping of `payload` bytes under `items`?
-fn accept(items: &[Item], payload: usize, writes: &[usize]) -> Result<(), String> {
+pub fn accept(items: &[Item], payload: usize, writes: &[usize]) -> Result<(), String> {
     let mut remaining = payload as i64;
     let mut wi = 0usize;
     for it in items {
